@@ -29,6 +29,7 @@ TOLERATED_DISCARD = {"records_by_key": "stale ids in the by-key index are skippe
 EXPLANATION += ' (R9, round 8) also the close cells of the API handle (= C14.R5). (R10) = C12.R9: a refused removal does not end the event streams of the holders.'
 EXPLANATION += ' (R11, round 9) = C18.R4 / R6: a migration that executed is committed whatever row count it reports, so the capability-table migrations cannot bring a removed document back on the next open.'
 EXPLANATION += ' Round 10: (R12) the failing-body and destructor rows of C06.R4; (R13) Store::remove_replica evaluated on an open document: an error, no table touched.'
+EXPLANATION += ' (R14, round 11) = C14.R9: the engine holds its handle exactly while it has the document joined.'
 
 
 def r1(ctx, rule="C16.R1", only=None):
